@@ -1244,12 +1244,60 @@ func sparamCoq(p *PSpec) (string, bool) {
 		coqpp.Bool(p.In == "path"), coqpp.Bool(p.In == "header"), coqpp.Bool(p.Required), coqpp.Bool(p.AllowEmpty), ty), true
 }
 
+func aparamCoq(p *PSpec) (string, bool) {
+	if p.In == "path" || len(p.Enum) > 0 {
+		return "", false
+	}
+	var el string
+	switch {
+	case p.ItemType == "string" && p.ItemFormat == "":
+		el = "(PStr None None [])"
+	case p.ItemType == "integer":
+		lo, hi := intRange(p.ItemFormat)
+		el = fmt.Sprintf("(PInt %s %s %s false None false)", lo, hi, coqpp.OptZ(p.ItemMin))
+	case p.ItemType == "boolean":
+		el = "PBool"
+	default:
+		return "", false
+	}
+	sep := map[string]int{"": 44, "csv": 44, "ssv": 32, "tsv": 9, "pipes": 124, "multi": 44}[p.CFmt]
+	return fmt.Sprintf("{| ap_required := %s; ap_multi := %s; ap_sep := %d%%N; ap_elem := %s; ap_minitems := %s; ap_maxitems := %s; ap_unique := %s |}",
+		coqpp.Bool(p.Required), coqpp.Bool(p.CFmt == "multi"), sep, el, coqpp.OptZ(p.MinItems), coqpp.OptZ(p.MaxItems), coqpp.Bool(p.Unique)), true
+}
+
 func coqCase(sp *Spec, op *OSpec, c *tcase, res *tresult, reached bool) string {
 	switch c.expect.prop {
 	case "C03":
 		p := c.devParam
 		if p == nil || p.Default != nil {
 			return ""
+		}
+		if p.Type == "array" {
+			ap, ok := aparamCoq(p)
+			if !ok {
+				return ""
+			}
+			hk := c.devKey || p.In == "header"
+			val := "None"
+			if reached {
+				var g map[string]interface{}
+				_ = json.Unmarshal(res.Params, &g)
+				if l, ok := g[p.GoName].([]interface{}); ok {
+					var vs []string
+					for _, e := range l {
+						switch v := e.(type) {
+						case string:
+							vs = append(vs, "VStr "+coqpp.Str(v))
+						case float64:
+							vs = append(vs, "VInt "+coqpp.Z(int64(v)))
+						case bool:
+							vs = append(vs, "VBool "+coqpp.Bool(v))
+						}
+					}
+					val = "(Some " + coqpp.List(vs) + ")"
+				}
+			}
+			return fmt.Sprintf("CR {| ra_param := %s; ra_raws := %s; ra_has_key := %s; ra_reached := %s; ra_values := %s |}", ap, coqpp.StrList(c.devRaws), coqpp.Bool(hk), coqpp.Bool(reached), val)
 		}
 		ps, ok := sparamCoq(p)
 		if !ok {
